@@ -167,7 +167,15 @@ func (c *FnCtx) doCall(frame *Frame, st *State, in ssa.Instruction, call *ssa.Ca
 		return
 	}
 	if callee != nil && c.canInline(callee) {
-		c.inlineCall(frame, st, in, callee, args, nil, k)
+		var fvs []Val
+		if mc, ok := call.Value.(*ssa.MakeClosure); ok {
+			// a function literal called (or deferred) where it is written: its captured variables
+			// are the enclosing function's cells
+			for _, b := range mc.Bindings {
+				fvs = append(fvs, c.val(st, b))
+			}
+		}
+		c.inlineCall(frame, st, in, callee, args, fvs, k)
 		return
 	}
 	// unknown callee
@@ -603,6 +611,19 @@ func (c *FnCtx) everyArrays(pkg *types.Package, m ModItem) []string {
 		var out []string
 		for _, lf := range leavesOf(t) {
 			out = append(out, arrName("M", elemKey(t), lf.Path, lf.Sort))
+		}
+		return out
+	}
+	if m.Name == "#maps" {
+		mt, ok := t.Underlying().(*types.Map)
+		if !ok {
+			c.errs = append(c.errs, "modifies allmaps: not a map type "+m.Type)
+			return nil
+		}
+		mk := mapKeyOf(t)
+		out := []string{arrName("D", mk, "", "Bool"), arrName("L", "", "", "Int")}
+		for _, lf := range leavesOf(mt.Elem()) {
+			out = append(out, arrName("V", mk, lf.Path, lf.Sort))
 		}
 		return out
 	}
